@@ -141,6 +141,7 @@ func verif_bytesOf(s []byte) verifBytes { panic("verif: spec only") }
 func verif_bytesOfStr(s string) verifBytes { panic("verif: spec only") }
 func verif_built[T any](b T) verifBytes { panic("verif: spec only") }
 func verif_bsingle(c byte) verifBytes { panic("verif: spec only") }
+func verif_bempty() verifBytes { panic("verif: spec only") }
 func verif_bcat(a, b verifBytes) verifBytes { panic("verif: spec only") }
 func verif_bxor(a, b verifBytes) verifBytes { panic("verif: spec only") }
 func verif_btake(a verifBytes, n int) verifBytes { panic("verif: spec only") }
